@@ -825,7 +825,7 @@ func ruleOwnedField(c *Ctx, r *Reporter) {
 			continue
 		}
 		for _, s := range c.rootStores(fn) {
-			pub := s.Common().Args[1]
+			pub := publishedArg(s)
 			bad := false
 			var where ssa.Instruction
 			for _, ia := range allInstrs(fn) {
